@@ -205,7 +205,7 @@ FUZZ_FLAGS = ['-std=c++14', '-O1', '-g', '-fno-omit-frame-pointer', '-fsanitize=
 # executions per worker (16 workers), calibrated with tools/fuzz_probe.py to roughly two minutes per campaign; every property has one
 # (D22, D23 and D27 were found by these campaigns, not by the random generators)
 FUZZ_RUNS = {'C01': 300000, 'C02': 2000000, 'C03': 100000, 'C04': 600000, 'C05': 40000, 'C06': 2000000, 'C07': 150000, 'C08': 250000, 'C09': 80000,
-             'C10': 200000, 'C11': 100000, 'C12': 1500, 'C13': 4000, 'C14': 800, 'C15': 8000, 'C16': 1500000, 'C17': 2000000, 'C18': 3000,
+             'C10': 200000, 'C11': 100000, 'C12': 1500, 'C13': 150000, 'C14': 800, 'C15': 8000, 'C16': 1500000, 'C17': 2000000, 'C18': 3000,
              'C19': 80000, 'C20': 200000}
 
 def build_fuzz(b, pid, jobs=NCPU):
